@@ -7,12 +7,18 @@ captured-variable cells (`ObjectPtr`), iterators, the allocation counter, self t
 `discardResult` mark, error texts as the VM produces them.
 
 Shape (chosen so that the structural theorems are short):
-* `execSimple` — the 39 opcodes that neither call nor return nor suspend. It sees the current frame
-  read-only and the registers (`stack`, `sp`, `globals`); it cannot touch the frame stack *by type*.
-  It reports whether the instruction is one of the VM's tracked allocations.
-* `execCall`, `execReturn` — the only code that changes frames.
+* `fetch` — decode the instruction at `ip` (opcode, at most two operands, size) from the raw bytes.
+* `execSimple` — the 38 opcodes that neither call nor return nor suspend. It sees the current frame
+  read-only, the registers (`stack`, `sp`, `globals`, function objects) and its DECODED operands — never
+  the instruction stream or a position; it answers "continue with the next instruction" or "jump to t"
+  and whether the instruction is one of the VM's tracked allocations. It cannot touch the frame stack
+  *by type* and is position independent *by type*.
+* `execCall`, `execReturn` — the only code that changes frames (the tail-call test peeks at the bytes
+  after the call, as vm.go does).
 * `exec` — one dispatch, without the allocation counter; `run` — the loop, which owns the counter
   (`v.allocs--; if v.allocs == 0 { ErrObjectAllocLimit }`).
+* internal faults (`Fault`) are values of a separate layer (`XM = ExceptT Fault VMM`): nothing written in
+  `VMM` — none of the value-level operations and builtins — can produce one.
 
 Tied to the real VM on every run by lock-step comparison of (function, ip, sp, frame index, allocs)
 at every dispatched instruction, of the outcome and of every global (harness stream `vm`).
@@ -122,6 +128,37 @@ def op16 (f : Fn) (ip : Int) : Nat := byteAt f (ip + 1) * 256 + byteAt f (ip + 2
 def op32 (f : Fn) (ip : Int) : Nat :=
   ((byteAt f (ip + 1) * 256 + byteAt f (ip + 2)) * 256 + byteAt f (ip + 3)) * 256 + byteAt f (ip + 4)
 
+/-- Operand widths of the opcodes (`parser.OpcodeOperands`), as a match for fast evaluation; equal to
+`Opcodes.widths` (`shape_eq_widths`). -/
+def shape : Nat → List Nat
+  | 0 | 14 | 15 | 22 | 23 => [2]
+  | 9 | 10 | 11 | 12 => [4]
+  | 21 | 25 | 26 | 27 | 29 | 30 | 31 | 32 | 34 | 40 => [1]
+  | 20 | 28 | 33 => [1, 1]
+  | 24 | 35 => [2, 1]
+  | _ => []
+
+theorem shape_eq_widths : ∀ op, op < 42 → widths op = some (shape op) := by decide
+
+/-- A fetched instruction: opcode byte, its (at most two) operands, its length in bytes. -/
+structure Fetched where
+  op   : Nat
+  a0   : Nat := 0
+  a1   : Nat := 0
+  size : Nat := 1
+  deriving Repr, DecidableEq
+
+/-- Decode the instruction whose opcode byte is at `ip`. -/
+def fetch (f : Fn) (ip : Int) : Fetched :=
+  let op := byteAt f ip
+  match shape op with
+  | [1] => { op := op, a0 := byteAt f (ip + 1), size := 2 }
+  | [2] => { op := op, a0 := op16 f ip, size := 3 }
+  | [4] => { op := op, a0 := op32 f ip, size := 5 }
+  | [1, 1] => { op := op, a0 := byteAt f (ip + 1), a1 := byteAt f (ip + 2), size := 3 }
+  | [2, 1] => { op := op, a0 := op16 f ip, a1 := byteAt f (ip + 3), size := 4 }
+  | _ => { op := op }
+
 def tokOfNum : Nat → String
   | 11 => "Add" | 12 => "Sub" | 13 => "Mul" | 14 => "Quo" | 15 => "Rem" | 16 => "And" | 17 => "Or"
   | 18 => "Xor" | 19 => "Shl" | 20 => "Shr" | 21 => "AndNot" | 38 => "Less" | 39 => "Greater"
@@ -191,10 +228,17 @@ def iterGet (r : Nat) (wantKey : Bool) : VMM Value := do
         pure ((kvs.lookup k).getD .undef)
   | _ => eUnsup "bad iterator"
 
-/-- Result of a simple instruction: registers, the new `ip`, and whether it is a tracked allocation. -/
+/-- Where a simple instruction continues: at the next instruction, or at an absolute byte offset. -/
+inductive Next where
+  | seq
+  | jump (target : Nat)
+  deriving DecidableEq, Repr
+
+/-- Result of a simple instruction: registers, where to continue, and whether it is a tracked allocation.
+Simple instructions see their operands decoded (`a0`, `a1`) — never the instruction stream or a position. -/
 structure SimpleOut where
   regs  : Regs
-  ip    : Int
+  next  : Next := .seq
   alloc : Bool := false
 
 def rtE {α} (msg : String) : XM α := em (eRt msg)
@@ -204,114 +248,114 @@ def panicE {α} (msg : String) : XM α := em (goPanic msg)
 section perOpcode
 set_option linter.unusedVariables false
 
-def exConstant (code : Code) (f : Fn) (fr : Frame) (ip : Int) (op : Nat) (r : Regs) : XM SimpleOut := let k := op16 f ip
+def exConstant (code : Code) (fr : Frame) (a0 a1 : Nat) (op : Nat) (r : Regs) : XM SimpleOut := let k := a0
   match code.consts[k]? with
-  | some (.val v) => do pure { regs := ← em (push r v), ip := ip + 2 }
-  | some (.fn _ ref) => do pure { regs := ← em (push r (.cfn ref)), ip := ip + 2 }
+  | some (.val v) => do pure { regs := ← em (push r v), next := .seq }
+  | some (.fn _ ref) => do pure { regs := ← em (push r (.cfn ref)), next := .seq }
   | none => fault (.constIndex k)
 
-def exNull (code : Code) (f : Fn) (fr : Frame) (ip : Int) (op : Nat) (r : Regs) : XM SimpleOut := do pure { regs := ← em (push r .undef), ip := ip }
+def exNull (code : Code) (fr : Frame) (a0 a1 : Nat) (op : Nat) (r : Regs) : XM SimpleOut := do pure { regs := ← em (push r .undef), next := .seq }
 
-def exTrue (code : Code) (f : Fn) (fr : Frame) (ip : Int) (op : Nat) (r : Regs) : XM SimpleOut := do pure { regs := ← em (push r (.bool true)), ip := ip }
+def exTrue (code : Code) (fr : Frame) (a0 a1 : Nat) (op : Nat) (r : Regs) : XM SimpleOut := do pure { regs := ← em (push r (.bool true)), next := .seq }
 
-def exFalse (code : Code) (f : Fn) (fr : Frame) (ip : Int) (op : Nat) (r : Regs) : XM SimpleOut := do pure { regs := ← em (push r (.bool false)), ip := ip }
+def exFalse (code : Code) (fr : Frame) (a0 a1 : Nat) (op : Nat) (r : Regs) : XM SimpleOut := do pure { regs := ← em (push r (.bool false)), next := .seq }
 
-def exPop (code : Code) (f : Fn) (fr : Frame) (ip : Int) (op : Nat) (r : Regs) : XM SimpleOut := do
+def exPop (code : Code) (fr : Frame) (a0 a1 : Nat) (op : Nat) (r : Regs) : XM SimpleOut := do
   need r 1
-  pure { regs := { r with sp := r.sp - 1 }, ip := ip }
+  pure { regs := { r with sp := r.sp - 1 }, next := .seq }
 
-def exBinaryOp (code : Code) (f : Fn) (fr : Frame) (ip : Int) (op : Nat) (r : Regs) : XM SimpleOut := do
+def exBinaryOp (code : Code) (fr : Frame) (a0 a1 : Nat) (op : Nat) (r : Regs) : XM SimpleOut := do
   need r 2
-  let tok := byteAt f (ip + 1)
+  let tok := a0
   let res ← em (hp (binaryOp (tokOfNum tok) (getSlot r (r.sp - 2)) (getSlot r (r.sp - 1))))
   let r ← em (setSlot r (r.sp - 2) res)
-  pure { regs := { r with sp := r.sp - 1 }, ip := ip + 1, alloc := true }
+  pure { regs := { r with sp := r.sp - 1 }, next := .seq, alloc := true }
 
-def exEqual (code : Code) (f : Fn) (fr : Frame) (ip : Int) (op : Nat) (r : Regs) : XM SimpleOut := do
+def exEqual (code : Code) (fr : Frame) (a0 a1 : Nat) (op : Nat) (r : Regs) : XM SimpleOut := do
   need r 2
   let e ← em (hp (equalsV 64 (getSlot r (r.sp - 2)) (getSlot r (r.sp - 1))))
   let r ← em (setSlot r (r.sp - 2) (.bool (if op == opEqual then e else !e)))
-  pure { regs := { r with sp := r.sp - 1 }, ip := ip }
+  pure { regs := { r with sp := r.sp - 1 }, next := .seq }
 
-def exLNot (code : Code) (f : Fn) (fr : Frame) (ip : Int) (op : Nat) (r : Regs) : XM SimpleOut := do
+def exLNot (code : Code) (fr : Frame) (a0 a1 : Nat) (op : Nat) (r : Regs) : XM SimpleOut := do
   need r 1
   let b ← em (hp (isFalsy (getSlot r (r.sp - 1))))
-  pure { regs := ← em (setSlot r (r.sp - 1) (.bool b)), ip := ip }
+  pure { regs := ← em (setSlot r (r.sp - 1) (.bool b)), next := .seq }
 
-def exBComplement (code : Code) (f : Fn) (fr : Frame) (ip : Int) (op : Nat) (r : Regs) : XM SimpleOut := do
+def exBComplement (code : Code) (fr : Frame) (a0 a1 : Nat) (op : Nat) (r : Regs) : XM SimpleOut := do
   need r 1
   match getSlot r (r.sp - 1) with
-  | .int n => do pure { regs := ← em (setSlot r (r.sp - 1) (.int (-n - 1))), ip := ip, alloc := true }
+  | .int n => do pure { regs := ← em (setSlot r (r.sp - 1) (.int (-n - 1))), next := .seq, alloc := true }
   | a => rtE s!"invalid operation: ^{typeName a}"
 
-def exMinus (code : Code) (f : Fn) (fr : Frame) (ip : Int) (op : Nat) (r : Regs) : XM SimpleOut := do
+def exMinus (code : Code) (fr : Frame) (a0 a1 : Nat) (op : Nat) (r : Regs) : XM SimpleOut := do
   need r 1
   match getSlot r (r.sp - 1) with
-  | .int n => do pure { regs := ← em (setSlot r (r.sp - 1) (.int (wrap64 (-n)))), ip := ip, alloc := true }
-  | .float x => do pure { regs := ← em (setSlot r (r.sp - 1) (.float (-x))), ip := ip, alloc := true }
+  | .int n => do pure { regs := ← em (setSlot r (r.sp - 1) (.int (wrap64 (-n)))), next := .seq, alloc := true }
+  | .float x => do pure { regs := ← em (setSlot r (r.sp - 1) (.float (-x))), next := .seq, alloc := true }
   | a => rtE s!"invalid operation: -{typeName a}"
 
-def exJumpFalsy (code : Code) (f : Fn) (fr : Frame) (ip : Int) (op : Nat) (r : Regs) : XM SimpleOut := do
+def exJumpFalsy (code : Code) (fr : Frame) (a0 a1 : Nat) (op : Nat) (r : Regs) : XM SimpleOut := do
   need r 1
   let b ← em (hp (isFalsy (getSlot r (r.sp - 1))))
-  pure { regs := { r with sp := r.sp - 1 }, ip := if b then Int.ofNat (op32 f ip) - 1 else ip + 4 }
+  pure { regs := { r with sp := r.sp - 1 }, next := if b then .jump a0 else .seq }
 
-def exAndJump (code : Code) (f : Fn) (fr : Frame) (ip : Int) (op : Nat) (r : Regs) : XM SimpleOut := do
+def exAndJump (code : Code) (fr : Frame) (a0 a1 : Nat) (op : Nat) (r : Regs) : XM SimpleOut := do
   need r 1
-  if ← em (hp (isFalsy (getSlot r (r.sp - 1)))) then pure { regs := r, ip := Int.ofNat (op32 f ip) - 1 }
-  else pure { regs := { r with sp := r.sp - 1 }, ip := ip + 4 }
+  if ← em (hp (isFalsy (getSlot r (r.sp - 1)))) then pure { regs := r, next := .jump a0 }
+  else pure { regs := { r with sp := r.sp - 1 }, next := .seq }
 
-def exOrJump (code : Code) (f : Fn) (fr : Frame) (ip : Int) (op : Nat) (r : Regs) : XM SimpleOut := do
+def exOrJump (code : Code) (fr : Frame) (a0 a1 : Nat) (op : Nat) (r : Regs) : XM SimpleOut := do
   need r 1
-  if ← em (hp (isFalsy (getSlot r (r.sp - 1)))) then pure { regs := { r with sp := r.sp - 1 }, ip := ip + 4 }
-  else pure { regs := r, ip := Int.ofNat (op32 f ip) - 1 }
+  if ← em (hp (isFalsy (getSlot r (r.sp - 1)))) then pure { regs := { r with sp := r.sp - 1 }, next := .seq }
+  else pure { regs := r, next := .jump a0 }
 
-def exJump (code : Code) (f : Fn) (fr : Frame) (ip : Int) (op : Nat) (r : Regs) : XM SimpleOut := pure { regs := r, ip := Int.ofNat (op32 f ip) - 1 }
+def exJump (code : Code) (fr : Frame) (a0 a1 : Nat) (op : Nat) (r : Regs) : XM SimpleOut := pure { regs := r, next := .jump a0 }
 
-def exSetGlobal (code : Code) (f : Fn) (fr : Frame) (ip : Int) (op : Nat) (r : Regs) : XM SimpleOut := do
+def exSetGlobal (code : Code) (fr : Frame) (a0 a1 : Nat) (op : Nat) (r : Regs) : XM SimpleOut := do
   need r 1
-  let g := op16 f ip
+  let g := a0
   if g < r.globals.size then
-    pure { regs := { r with sp := r.sp - 1, globals := r.globals.setIfInBounds g (getSlot r (r.sp - 1)) }, ip := ip + 2 }
+    pure { regs := { r with sp := r.sp - 1, globals := r.globals.setIfInBounds g (getSlot r (r.sp - 1)) }, next := .seq }
   else fault (.globalIndex g)
 
-def exGetGlobal (code : Code) (f : Fn) (fr : Frame) (ip : Int) (op : Nat) (r : Regs) : XM SimpleOut := do
-  let g := op16 f ip
-  if g < r.globals.size then pure { regs := ← em (push r (r.globals.getD g .undef)), ip := ip + 2 }
+def exGetGlobal (code : Code) (fr : Frame) (a0 a1 : Nat) (op : Nat) (r : Regs) : XM SimpleOut := do
+  let g := a0
+  if g < r.globals.size then pure { regs := ← em (push r (r.globals.getD g .undef)), next := .seq }
   else fault (.globalIndex g)
 
-def exSetSelGlobal (code : Code) (f : Fn) (fr : Frame) (ip : Int) (op : Nat) (r : Regs) : XM SimpleOut := do
-  let g := op16 f ip
-  let n := byteAt f (ip + 3)
+def exSetSelGlobal (code : Code) (fr : Frame) (a0 a1 : Nat) (op : Nat) (r : Regs) : XM SimpleOut := do
+  let g := a0
+  let n := a1
   need r (n + 1)
   if g < r.globals.size then do
     let (sels, v) := selArgs r n
     em (indexAssign (r.globals.getD g .undef) v sels)
-    pure { regs := { r with sp := r.sp - n - 1 }, ip := ip + 3 }
+    pure { regs := { r with sp := r.sp - n - 1 }, next := .seq }
   else fault (.globalIndex g)
 
-def exArray (code : Code) (f : Fn) (fr : Frame) (ip : Int) (op : Nat) (r : Regs) : XM SimpleOut := do
-  let n := op16 f ip
+def exArray (code : Code) (fr : Frame) (a0 a1 : Nat) (op : Nat) (r : Regs) : XM SimpleOut := do
+  let n := a0
   need r n
   let a ← em (hp (newArray (slots r (r.sp - n) n)))
-  pure { regs := ← em (push { r with sp := r.sp - n } (.arr a)), ip := ip + 2, alloc := true }
+  pure { regs := ← em (push { r with sp := r.sp - n } (.arr a)), next := .seq, alloc := true }
 
-def exMap (code : Code) (f : Fn) (fr : Frame) (ip : Int) (op : Nat) (r : Regs) : XM SimpleOut := do
-  let n := op16 f ip
+def exMap (code : Code) (fr : Frame) (a0 a1 : Nat) (op : Nat) (r : Regs) : XM SimpleOut := do
+  let n := a0
   need r n
   let kvs ← em ((List.range (n / 2)).mapM (fun i => do
     match getSlot r (r.sp - n + 2 * i) with
     | .str k => pure (k, getSlot r (r.sp - n + 2 * i + 1))
     | _ => goPanic "interface conversion: tengo.Object is not *tengo.String") : VMM (List (Bytes × Value)))
   let m ← em (hp (newMap kvs))
-  pure { regs := ← em (push { r with sp := r.sp - n } (.map m)), ip := ip + 2, alloc := true }
+  pure { regs := ← em (push { r with sp := r.sp - n } (.map m)), next := .seq, alloc := true }
 
-def exError (code : Code) (f : Fn) (fr : Frame) (ip : Int) (op : Nat) (r : Regs) : XM SimpleOut := do
+def exError (code : Code) (fr : Frame) (a0 a1 : Nat) (op : Nat) (r : Regs) : XM SimpleOut := do
   need r 1
   let e ← em (hp (alloc (.err (getSlot r (r.sp - 1)))))
-  pure { regs := ← em (setSlot r (r.sp - 1) (.err e)), ip := ip, alloc := true }
+  pure { regs := ← em (setSlot r (r.sp - 1) (.err e)), next := .seq, alloc := true }
 
-def exImmutable (code : Code) (f : Fn) (fr : Frame) (ip : Int) (op : Nat) (r : Regs) : XM SimpleOut := do
+def exImmutable (code : Code) (fr : Frame) (a0 a1 : Nat) (op : Nat) (r : Regs) : XM SimpleOut := do
   need r 1
   match getSlot r (r.sp - 1) with
   | .arr a => do
@@ -323,57 +367,57 @@ def exImmutable (code : Code) (f : Fn) (fr : Frame) (ip : Int) (op : Nat) (r : R
             | _ => eUnsup "bad store"
             hp (alloc (.arr st off len))
         | _ => eUnsup "bad array" : VMM Nat)
-      pure { regs := ← em (setSlot r (r.sp - 1) (.imarr a')), ip := ip, alloc := true }
-  | .map m => do pure { regs := ← em (setSlot r (r.sp - 1) (.immap m)), ip := ip, alloc := true }
-  | _ => pure { regs := r, ip := ip }
+      pure { regs := ← em (setSlot r (r.sp - 1) (.imarr a')), next := .seq, alloc := true }
+  | .map m => do pure { regs := ← em (setSlot r (r.sp - 1) (.immap m)), next := .seq, alloc := true }
+  | _ => pure { regs := r, next := .seq }
 
-def exIndex (code : Code) (f : Fn) (fr : Frame) (ip : Int) (op : Nat) (r : Regs) : XM SimpleOut := do
+def exIndex (code : Code) (fr : Frame) (a0 a1 : Nat) (op : Nat) (r : Regs) : XM SimpleOut := do
   need r 2
   let v ← em (indexGet (getSlot r (r.sp - 2)) (getSlot r (r.sp - 1)))
   let r ← em (setSlot r (r.sp - 2) v)
-  pure { regs := { r with sp := r.sp - 1 }, ip := ip }
+  pure { regs := { r with sp := r.sp - 1 }, next := .seq }
 
-def exSliceIndex (code : Code) (f : Fn) (fr : Frame) (ip : Int) (op : Nat) (r : Regs) : XM SimpleOut := do
+def exSliceIndex (code : Code) (fr : Frame) (a0 a1 : Nat) (op : Nat) (r : Regs) : XM SimpleOut := do
   need r 3
   let v ← em (sliceV (getSlot r (r.sp - 3)) (getSlot r (r.sp - 2)) (getSlot r (r.sp - 1)))
-  pure { regs := ← em (push { r with sp := r.sp - 3 } v), ip := ip, alloc := true }
+  pure { regs := ← em (push { r with sp := r.sp - 3 } v), next := .seq, alloc := true }
 
-def exDefineLocal (code : Code) (f : Fn) (fr : Frame) (ip : Int) (op : Nat) (r : Regs) : XM SimpleOut := do
+def exDefineLocal (code : Code) (fr : Frame) (a0 a1 : Nat) (op : Nat) (r : Regs) : XM SimpleOut := do
   need r 1
-  let i := byteAt f (ip + 1)
-  pure { regs := ← em (setSlot { r with sp := r.sp - 1 } (fr.bp + i) (getSlot r (r.sp - 1))), ip := ip + 1 }
+  let i := a0
+  pure { regs := ← em (setSlot { r with sp := r.sp - 1 } (fr.bp + i) (getSlot r (r.sp - 1))), next := .seq }
 
-def exSetLocal (code : Code) (f : Fn) (fr : Frame) (ip : Int) (op : Nat) (r : Regs) : XM SimpleOut := do
+def exSetLocal (code : Code) (fr : Frame) (a0 a1 : Nat) (op : Nat) (r : Regs) : XM SimpleOut := do
   need r 1
-  let i := byteAt f (ip + 1)
+  let i := a0
   let v := getSlot r (r.sp - 1)
   let r := { r with sp := r.sp - 1 }
   match getSlot r (fr.bp + i) with
-  | .ptr c => do em (hp (setObj c (.cell v false))); pure { regs := r, ip := ip + 1 }
-  | _ => do pure { regs := ← em (setSlot r (fr.bp + i) v), ip := ip + 1 }
+  | .ptr c => do em (hp (setObj c (.cell v false))); pure { regs := r, next := .seq }
+  | _ => do pure { regs := ← em (setSlot r (fr.bp + i) v), next := .seq }
 
-def exSetSelLocal (code : Code) (f : Fn) (fr : Frame) (ip : Int) (op : Nat) (r : Regs) : XM SimpleOut := do
-  let i := byteAt f (ip + 1)
-  let n := byteAt f (ip + 2)
+def exSetSelLocal (code : Code) (fr : Frame) (a0 a1 : Nat) (op : Nat) (r : Regs) : XM SimpleOut := do
+  let i := a0
+  let n := a1
   need r (n + 1)
   let (sels, v) := selArgs r n
   let dst ← em (deref (getSlot r (fr.bp + i)))
   em (indexAssign dst v sels)
-  pure { regs := { r with sp := r.sp - n - 1 }, ip := ip + 2 }
+  pure { regs := { r with sp := r.sp - n - 1 }, next := .seq }
 
-def exGetLocal (code : Code) (f : Fn) (fr : Frame) (ip : Int) (op : Nat) (r : Regs) : XM SimpleOut := do
-  let v ← em (deref (getSlot r (fr.bp + byteAt f (ip + 1))))
-  pure { regs := ← em (push r v), ip := ip + 1 }
+def exGetLocal (code : Code) (fr : Frame) (a0 a1 : Nat) (op : Nat) (r : Regs) : XM SimpleOut := do
+  let v ← em (deref (getSlot r (fr.bp + a0)))
+  pure { regs := ← em (push r v), next := .seq }
 
-def exGetBuiltin (code : Code) (f : Fn) (fr : Frame) (ip : Int) (op : Nat) (r : Regs) : XM SimpleOut := do
-  let i := byteAt f (ip + 1)
+def exGetBuiltin (code : Code) (fr : Frame) (a0 a1 : Nat) (op : Nat) (r : Regs) : XM SimpleOut := do
+  let i := a0
   match builtinNames[i]? with
-  | some n => do pure { regs := ← em (push r (.builtin n)), ip := ip + 1 }
+  | some n => do pure { regs := ← em (push r (.builtin n)), next := .seq }
   | none => fault (.builtinIndex i)
 
-def exClosure (code : Code) (f : Fn) (fr : Frame) (ip : Int) (op : Nat) (r : Regs) : XM SimpleOut := do
-  let k := op16 f ip
-  let numFree := byteAt f (ip + 3)
+def exClosure (code : Code) (fr : Frame) (a0 a1 : Nat) (op : Nat) (r : Regs) : XM SimpleOut := do
+  let k := a0
+  let numFree := a1
   need r numFree
   match code.consts[k]? with
   | some (.fn _ _) => do
@@ -384,113 +428,113 @@ def exClosure (code : Code) (f : Fn) (fr : Frame) (ip : Int) (op : Nat) (r : Reg
       | v => hp (alloc (.cell v false))) : VMM (List Nat))
     let cl := r.fobjs.size
     let r := { r with sp := r.sp - numFree, fobjs := r.fobjs.push (k, free) }
-    pure { regs := ← em (push r (.cfn cl)), ip := ip + 3, alloc := true }
+    pure { regs := ← em (push r (.cfn cl)), next := .seq, alloc := true }
   | some (.val _) => fault (.notFunction k)
   | none => fault (.constIndex k)
 
-def exGetFreePtr (code : Code) (f : Fn) (fr : Frame) (ip : Int) (op : Nat) (r : Regs) : XM SimpleOut := do
-  let i := byteAt f (ip + 1)
+def exGetFreePtr (code : Code) (fr : Frame) (a0 a1 : Nat) (op : Nat) (r : Regs) : XM SimpleOut := do
+  let i := a0
   match fr.free[i]? with
-  | some c => do pure { regs := ← em (push r (.ptr c)), ip := ip + 1 }
+  | some c => do pure { regs := ← em (push r (.ptr c)), next := .seq }
   | none => fault (.freeIndex i)
 
-def exGetFree (code : Code) (f : Fn) (fr : Frame) (ip : Int) (op : Nat) (r : Regs) : XM SimpleOut := do
-  let i := byteAt f (ip + 1)
+def exGetFree (code : Code) (fr : Frame) (a0 a1 : Nat) (op : Nat) (r : Regs) : XM SimpleOut := do
+  let i := a0
   match fr.free[i]? with
-  | some c => do pure { regs := ← em (do push r (← deref (.ptr c))), ip := ip + 1 }
+  | some c => do pure { regs := ← em (do push r (← deref (.ptr c))), next := .seq }
   | none => fault (.freeIndex i)
 
-def exSetFree (code : Code) (f : Fn) (fr : Frame) (ip : Int) (op : Nat) (r : Regs) : XM SimpleOut := do
+def exSetFree (code : Code) (fr : Frame) (a0 a1 : Nat) (op : Nat) (r : Regs) : XM SimpleOut := do
   need r 1
-  let i := byteAt f (ip + 1)
+  let i := a0
   match fr.free[i]? with
   | some c => do
       em (hp (setObj c (.cell (getSlot r (r.sp - 1)) false)))
-      pure { regs := { r with sp := r.sp - 1 }, ip := ip + 1 }
+      pure { regs := { r with sp := r.sp - 1 }, next := .seq }
   | none => fault (.freeIndex i)
 
-def exGetLocalPtr (code : Code) (f : Fn) (fr : Frame) (ip : Int) (op : Nat) (r : Regs) : XM SimpleOut := do
-  let slot := fr.bp + byteAt f (ip + 1)
+def exGetLocalPtr (code : Code) (fr : Frame) (a0 a1 : Nat) (op : Nat) (r : Regs) : XM SimpleOut := do
+  let slot := fr.bp + a0
   match getSlot r slot with
-  | .ptr c => do pure { regs := ← em (push r (.ptr c)), ip := ip + 1 }
+  | .ptr c => do pure { regs := ← em (push r (.ptr c)), next := .seq }
   | v => do
       let c ← em (hp (alloc (.cell v false)))
       let r ← em (setSlot r slot (.ptr c))
-      pure { regs := ← em (push r (.ptr c)), ip := ip + 1 }
+      pure { regs := ← em (push r (.ptr c)), next := .seq }
 
-def exSetSelFree (code : Code) (f : Fn) (fr : Frame) (ip : Int) (op : Nat) (r : Regs) : XM SimpleOut := do
-  let i := byteAt f (ip + 1)
-  let n := byteAt f (ip + 2)
+def exSetSelFree (code : Code) (fr : Frame) (a0 a1 : Nat) (op : Nat) (r : Regs) : XM SimpleOut := do
+  let i := a0
+  let n := a1
   need r (n + 1)
   let (sels, v) := selArgs r n
   match fr.free[i]? with
   | some c => do
       em (do indexAssign (← deref (.ptr c)) v sels)
-      pure { regs := { r with sp := r.sp - n - 1 }, ip := ip + 2 }
+      pure { regs := { r with sp := r.sp - n - 1 }, next := .seq }
   | none => fault (.freeIndex i)
 
-def exIteratorInit (code : Code) (f : Fn) (fr : Frame) (ip : Int) (op : Nat) (r : Regs) : XM SimpleOut := do
+def exIteratorInit (code : Code) (fr : Frame) (a0 a1 : Nat) (op : Nat) (r : Regs) : XM SimpleOut := do
   need r 1
   let v := getSlot r (r.sp - 1)
   match ← em (makeIter v) with
   | none => rtE s!"not iterable: {typeName v}"
   | some o => do
       let it ← em (hp (alloc o))
-      pure { regs := ← em (setSlot r (r.sp - 1) (.iter it)), ip := ip, alloc := true }
+      pure { regs := ← em (setSlot r (r.sp - 1) (.iter it)), next := .seq, alloc := true }
 
-def exIteratorNext (code : Code) (f : Fn) (fr : Frame) (ip : Int) (op : Nat) (r : Regs) : XM SimpleOut := do
+def exIteratorNext (code : Code) (fr : Frame) (a0 a1 : Nat) (op : Nat) (r : Regs) : XM SimpleOut := do
   need r 1
   match getSlot r (r.sp - 1) with
-  | .iter it => do pure { regs := ← em (do setSlot r (r.sp - 1) (.bool (← iterNext it))), ip := ip }
+  | .iter it => do pure { regs := ← em (do setSlot r (r.sp - 1) (.bool (← iterNext it))), next := .seq }
   | _ => panicE "interface conversion: tengo.Object is not tengo.Iterator"
 
-def exIteratorKey (code : Code) (f : Fn) (fr : Frame) (ip : Int) (op : Nat) (r : Regs) : XM SimpleOut := do
+def exIteratorKey (code : Code) (fr : Frame) (a0 a1 : Nat) (op : Nat) (r : Regs) : XM SimpleOut := do
   need r 1
   match getSlot r (r.sp - 1) with
-  | .iter it => do pure { regs := ← em (do setSlot r (r.sp - 1) (← iterGet it (op == opIteratorKey))), ip := ip }
+  | .iter it => do pure { regs := ← em (do setSlot r (r.sp - 1) (← iterGet it (op == opIteratorKey))), next := .seq }
   | _ => panicE "interface conversion: tengo.Object is not tengo.Iterator"
 
 end perOpcode
 
 /-- The opcodes that neither call, return nor suspend. `ip` is the index of the opcode byte. -/
-def execSimple (code : Code) (f : Fn) (fr : Frame) (ip : Int) (op : Nat) (r : Regs) : XM SimpleOut :=
-  if op == opConstant then exConstant code f fr ip op r
-  else if op == opNull then exNull code f fr ip op r
-  else if op == opTrue then exTrue code f fr ip op r
-  else if op == opFalse then exFalse code f fr ip op r
-  else if op == opPop then exPop code f fr ip op r
-  else if op == opBinaryOp then exBinaryOp code f fr ip op r
-  else if op == opEqual || op == opNotEqual then exEqual code f fr ip op r
-  else if op == opLNot then exLNot code f fr ip op r
-  else if op == opBComplement then exBComplement code f fr ip op r
-  else if op == opMinus then exMinus code f fr ip op r
-  else if op == opJumpFalsy then exJumpFalsy code f fr ip op r
-  else if op == opAndJump then exAndJump code f fr ip op r
-  else if op == opOrJump then exOrJump code f fr ip op r
-  else if op == opJump then exJump code f fr ip op r
-  else if op == opSetGlobal then exSetGlobal code f fr ip op r
-  else if op == opGetGlobal then exGetGlobal code f fr ip op r
-  else if op == opSetSelGlobal then exSetSelGlobal code f fr ip op r
-  else if op == opArray then exArray code f fr ip op r
-  else if op == opMap then exMap code f fr ip op r
-  else if op == opError then exError code f fr ip op r
-  else if op == opImmutable then exImmutable code f fr ip op r
-  else if op == opIndex then exIndex code f fr ip op r
-  else if op == opSliceIndex then exSliceIndex code f fr ip op r
-  else if op == opDefineLocal then exDefineLocal code f fr ip op r
-  else if op == opSetLocal then exSetLocal code f fr ip op r
-  else if op == opSetSelLocal then exSetSelLocal code f fr ip op r
-  else if op == opGetLocal then exGetLocal code f fr ip op r
-  else if op == opGetBuiltin then exGetBuiltin code f fr ip op r
-  else if op == opClosure then exClosure code f fr ip op r
-  else if op == opGetFreePtr then exGetFreePtr code f fr ip op r
-  else if op == opGetFree then exGetFree code f fr ip op r
-  else if op == opSetFree then exSetFree code f fr ip op r
-  else if op == opGetLocalPtr then exGetLocalPtr code f fr ip op r
-  else if op == opSetSelFree then exSetSelFree code f fr ip op r
-  else if op == opIteratorInit then exIteratorInit code f fr ip op r
-  else if op == opIteratorNext then exIteratorNext code f fr ip op r
-  else if op == opIteratorKey || op == opIteratorValue then exIteratorKey code f fr ip op r
+def execSimple (code : Code) (fr : Frame) (a0 a1 : Nat) (op : Nat) (r : Regs) : XM SimpleOut :=
+  if op == opConstant then exConstant code fr a0 a1 op r
+  else if op == opNull then exNull code fr a0 a1 op r
+  else if op == opTrue then exTrue code fr a0 a1 op r
+  else if op == opFalse then exFalse code fr a0 a1 op r
+  else if op == opPop then exPop code fr a0 a1 op r
+  else if op == opBinaryOp then exBinaryOp code fr a0 a1 op r
+  else if op == opEqual || op == opNotEqual then exEqual code fr a0 a1 op r
+  else if op == opLNot then exLNot code fr a0 a1 op r
+  else if op == opBComplement then exBComplement code fr a0 a1 op r
+  else if op == opMinus then exMinus code fr a0 a1 op r
+  else if op == opJumpFalsy then exJumpFalsy code fr a0 a1 op r
+  else if op == opAndJump then exAndJump code fr a0 a1 op r
+  else if op == opOrJump then exOrJump code fr a0 a1 op r
+  else if op == opJump then exJump code fr a0 a1 op r
+  else if op == opSetGlobal then exSetGlobal code fr a0 a1 op r
+  else if op == opGetGlobal then exGetGlobal code fr a0 a1 op r
+  else if op == opSetSelGlobal then exSetSelGlobal code fr a0 a1 op r
+  else if op == opArray then exArray code fr a0 a1 op r
+  else if op == opMap then exMap code fr a0 a1 op r
+  else if op == opError then exError code fr a0 a1 op r
+  else if op == opImmutable then exImmutable code fr a0 a1 op r
+  else if op == opIndex then exIndex code fr a0 a1 op r
+  else if op == opSliceIndex then exSliceIndex code fr a0 a1 op r
+  else if op == opDefineLocal then exDefineLocal code fr a0 a1 op r
+  else if op == opSetLocal then exSetLocal code fr a0 a1 op r
+  else if op == opSetSelLocal then exSetSelLocal code fr a0 a1 op r
+  else if op == opGetLocal then exGetLocal code fr a0 a1 op r
+  else if op == opGetBuiltin then exGetBuiltin code fr a0 a1 op r
+  else if op == opClosure then exClosure code fr a0 a1 op r
+  else if op == opGetFreePtr then exGetFreePtr code fr a0 a1 op r
+  else if op == opGetFree then exGetFree code fr a0 a1 op r
+  else if op == opSetFree then exSetFree code fr a0 a1 op r
+  else if op == opGetLocalPtr then exGetLocalPtr code fr a0 a1 op r
+  else if op == opSetSelFree then exSetSelFree code fr a0 a1 op r
+  else if op == opIteratorInit then exIteratorInit code fr a0 a1 op r
+  else if op == opIteratorNext then exIteratorNext code fr a0 a1 op r
+  else if op == opIteratorKey || op == opIteratorValue then exIteratorKey code fr a0 a1 op r
   else fault (.unknownOpcode op)
 
 /-! ### calls and returns -/
@@ -550,10 +594,8 @@ def rollUp (cf : Fn) (r : Regs) (numArgs : Nat) : VMM (Regs × Nat) :=
     pure ({ r with sp := r.sp - nVar + 1 }, real + 1)
   else pure (r, numArgs)
 
-def execCall (code : Code) (f : Fn) (ip : Int) (c : Core) : XM ExecOut := do
+def execCall (code : Code) (f : Fn) (ip : Int) (numArgs0 spread : Nat) (c : Core) : XM ExecOut := do
   let r := c.regs
-  let numArgs0 := byteAt f (ip + 1)
-  let spread := byteAt f (ip + 2)
   need r (numArgs0 + 1)
   let callee := getSlot r (r.sp - 1 - numArgs0)
   let ipAfter := ip + 2
@@ -575,8 +617,8 @@ def execCall (code : Code) (f : Fn) (ip : Int) (c : Core) : XM ExecOut := do
   | .fn _ => unsupE "reference-semantics closure in the VM model"
   | _ => rtE s!"not callable: {typeName callee}"
 
-def execReturn (f : Fn) (ip : Int) (c : Core) : XM ExecOut := do
-  let hasVal := byteAt f (ip + 1) == 1
+def execReturn (withValue : Nat) (c : Core) : XM ExecOut := do
+  let hasVal := withValue == 1
   if hasVal then need c.regs 1
   let ret := if hasVal && !c.cur.discard then getSlot c.regs (c.regs.sp - 1) else .undef
   match c.callers with
@@ -585,19 +627,23 @@ def execReturn (f : Fn) (ip : Int) (c : Core) : XM ExecOut := do
       let r ← em (setSlot { c.regs with sp := c.cur.bp } (c.cur.bp - 1) ret)
       pure (.next { regs := r, cur := caller, callers := rest } false)
 
-/-- One dispatch of the VM loop (without the allocation counter). -/
+/-- One dispatch of the VM loop (without the allocation counter): fetch and decode the instruction at
+`ip`, execute it on its decoded operands, move `ip` (`v.ip` is the index of the last consumed byte). -/
 def exec (code : Code) (c : Core) : XM ExecOut := do
   let some f := code.fn c.cur.fnIdx | fault .badFunctionIndex
   let ip := c.cur.ip + 1
   if ip < 0 || ip.toNat ≥ f.insts.size then fault (.ipOutside ip)
   else
-    let op := byteAt f ip
-    if op == opCall then execCall code f ip c
-    else if op == opReturn then execReturn f ip c
-    else if op == opSuspend then pure (.halt { c with cur := { c.cur with ip := ip } })
+    let i := fetch f ip
+    if i.op == opCall then execCall code f ip i.a0 i.a1 c
+    else if i.op == opReturn then execReturn i.a0 c
+    else if i.op == opSuspend then pure (.halt { c with cur := { c.cur with ip := ip } })
     else do
-      let o ← execSimple code f c.cur ip op c.regs
-      pure (.next { c with regs := o.regs, cur := { c.cur with ip := o.ip } } o.alloc)
+      let o ← execSimple code c.cur i.a0 i.a1 i.op c.regs
+      let ip' : Int := match o.next with
+        | .seq => ip + i.size - 1
+        | .jump t => Int.ofNat t - 1
+      pure (.next { c with regs := o.regs, cur := { c.cur with ip := ip' } } o.alloc)
 
 /-! ### the loop -/
 
